@@ -21,7 +21,7 @@ fn pick<T>(v: &[T], b: u8) -> Option<usize> {
 fn handle_of(op: &mut ClientOp) -> Option<&mut u16> {
     use ClientOp::*;
     match op {
-        Send { h, .. } | Call { h, .. } | CallDrop { h, .. } | SendRepoll { h, .. } | JoinStash { h } | Ping { h } | Stop { h } | Halt { h } | TryStop { h } | TryHalt { h } | Restart { h } | AwaitClone { h }
+        Send { h, .. } | Call { h, .. } | CallDrop { h, .. } | SendRepoll { h, .. } | SendDrop { h, .. } | JoinStash { h } | Ping { h } | Stop { h } | Halt { h } | TryStop { h } | TryHalt { h } | Restart { h } | AwaitClone { h }
         | Join { h } | Consume { h } | ConsumeSync { h } | Detach { h } | Clone { h } | Downgrade { h } | Upgrade { h } | ToSender { h }
         | ToCaller { h } | ToWeakSender { h } | ToWeakCaller { h } | ToAddr { h } | Drop { h } | Give { h, .. } | QueryStopped { h }
         | QueryRunning { h } | SubscribeFor { h, .. } | UnsubscribeFor { h, .. } => Some(h),
@@ -98,7 +98,7 @@ pub fn decode(family: Family, big: bool, data: &[u8]) -> Option<Case> {
             6 => {
                 // change the duration / shape of a handler
                 if let Some(i) = pick(&case.clients[ci], b) {
-                    if let ClientOp::Send { work, .. } | ClientOp::Call { work, .. } | ClientOp::CallDrop { work, .. } | ClientOp::SendRepoll { work, .. } = &mut case.clients[ci][i] {
+                    if let ClientOp::Send { work, .. } | ClientOp::Call { work, .. } | ClientOp::CallDrop { work, .. } | ClientOp::SendRepoll { work, .. } | ClientOp::SendDrop { work, .. } = &mut case.clients[ci][i] {
                         match c % 4 {
                             0 => work.insert(0, Step::Yield),
                             1 => work.push(Step::Sleep((c >> 3) as u32)),
